@@ -217,6 +217,9 @@ func vocabularyCheck(v *vocabJ) (missing, unknown []string, err error) {
 
 // ---------------------------------------------------------------- concretisation
 
+// a User-Agent longer than any in-tree limit on that header (637 bytes)
+var uaLong = "LongAgent/1.0 (" + strings.Repeat("compatible; token-0123456789; ", 20) + "end)"
+
 const uaFirefox = "Mozilla/5.0 (X11; Linux x86_64; rv:99.0) Gecko/20100101 Firefox/99.0"
 
 var fillBytes = func() []byte {
@@ -276,6 +279,7 @@ type world struct {
 	status   int
 	size     int
 	hostname string
+	ua       string // which User-Agent of the model ("firefox", "long")
 }
 
 // resolve turns a token sequence of the model into text. where = "log" | "header" | "wire" (request bytes).
@@ -296,7 +300,11 @@ func (w *world) resolve(toks []string, where string) string {
 		case t == "@probe":
 			b.WriteString(w.probe)
 		case t == "@ua":
-			b.WriteString(uaFirefox)
+			if w.ua == "long" {
+				b.WriteString(uaLong)
+			} else {
+				b.WriteString(uaFirefox)
+			}
 		case t == "@fill":
 			b.Write(fillBytes)
 		case t == "@hostname":
@@ -513,7 +521,7 @@ func (fx *fixture) exchange(c *vcase, rnd *rand.Rand) observed {
 			o.Err = "dial: " + err.Error()
 			return o
 		}
-		w := &world{port: fx.plainPort, cport: cl.cport, fx: fx, hostname: fx.hostname}
+		w := &world{port: fx.plainPort, cport: cl.cport, fx: fx, hostname: fx.hostname, ua: c.X.UA}
 		if c.X.Conn != "P" {
 			w.port = fx.tlsPort
 			w.cipher = cipherName(cl.state.CipherSuite)
